@@ -118,6 +118,10 @@ func (tt *termTable) boolConst(b bool) *Term {
 // assertions on a freshly boxed value, comparisons of integer constants.
 func (tt *termTable) simplify(t *Term) *Term {
 	switch t.K {
+	case "F":
+		if t.A.K == "L" {
+			return tt.mk(Term{K: "L", A: tt.mk(Term{K: "FA", A: t.A.A, N: t.N}), N: t.A.N})
+		}
 	case "LEN":
 		if t.A.K == "C" && t.A.Const != nil && t.A.Const.Kind() == constant.String {
 			n := int64(len(constant.StringVal(t.A.Const)))
@@ -282,12 +286,20 @@ type State struct {
 	bind  map[ssa.Value]ssa.Value // phi / local-cell load -> the value it currently equals
 	terms map[ssa.Value]*Term     // per-path term overrides (heap loads with epoch, aliased phis)
 	mem   map[*ssa.Alloc]ssa.Value // multi-store local cells: last stored value (nil = unknown)
+	heap  map[string]heapCell     // store-to-load forwarding for heap cells (address term key -> stored value)
 	epoch int
 	dead  bool
 }
 
+type heapCell struct {
+	addr *Term
+	val  ssa.Value
+	loc  string
+	ep   int // memory epoch right after the store
+}
+
 func newState() *State {
-	return &State{facts: map[string]Fact{}, bind: map[ssa.Value]ssa.Value{}, mem: map[*ssa.Alloc]ssa.Value{}, terms: map[ssa.Value]*Term{}}
+	return &State{facts: map[string]Fact{}, bind: map[ssa.Value]ssa.Value{}, mem: map[*ssa.Alloc]ssa.Value{}, terms: map[ssa.Value]*Term{}, heap: map[string]heapCell{}}
 }
 
 func (s *State) clone() *State {
@@ -295,6 +307,10 @@ func (s *State) clone() *State {
 		mem: make(map[*ssa.Alloc]ssa.Value, len(s.mem)), terms: make(map[ssa.Value]*Term, len(s.terms)), epoch: s.epoch, dead: s.dead}
 	for k, v := range s.terms {
 		n.terms[k] = v
+	}
+	n.heap = make(map[string]heapCell, len(s.heap))
+	for k, v := range s.heap {
+		n.heap[k] = v
 	}
 	for k, v := range s.facts {
 		n.facts[k] = v
@@ -352,6 +368,9 @@ func (s *State) key() string {
 	for v, t := range s.terms {
 		ks = append(ks, "t:"+valueID(v)+"="+t.key)
 	}
+	for k, c := range s.heap {
+		ks = append(ks, "h:"+k+"="+valueName(c.val))
+	}
 	ks = append(ks, fmt.Sprintf("e:%d", s.epoch))
 	sort.Strings(ks)
 	return strings.Join(ks, ";")
@@ -388,6 +407,17 @@ func (s *State) dropMentioning(vals map[ssa.Value]bool) {
 			s.mem[a] = nil
 		}
 	}
+	for k, c := range s.heap {
+		drop := vals[c.val]
+		for _, m := range c.addr.vals {
+			if vals[m] {
+				drop = true
+			}
+		}
+		if drop {
+			delete(s.heap, k)
+		}
+	}
 	for v, t := range s.terms {
 		if vals[v] {
 			delete(s.terms, v)
@@ -421,6 +451,11 @@ func (s *State) dropEpochs(pred func(int) bool) {
 	for v, t := range s.terms {
 		if has(t) {
 			delete(s.terms, v)
+		}
+	}
+	for k, c := range s.heap {
+		if has(c.addr) {
+			delete(s.heap, k)
 		}
 	}
 }
@@ -459,6 +494,11 @@ func meetStates(a, b *State) *State {
 	for v, t := range a.terms {
 		if x, ok := b.terms[v]; ok && x == t {
 			n.terms[v] = t
+		}
+	}
+	for k, c := range a.heap {
+		if x, ok := b.heap[k]; ok && x.val == c.val {
+			n.heap[k] = c
 		}
 	}
 	if a.epoch == b.epoch {
